@@ -4,8 +4,8 @@
 (* per distinct state for replay on the real code.                           *)
 EXTENDS ScalarHdrs, TLC, Json
 
-CONSTANTS Kind, Atoms, MaxLen, Cfgs, Junk, EmitOn
-VARIABLES wire, vis, cont, obj, verdict, cfg, prev, hist
+CONSTANTS Kind, Atoms, MaxLen, MaxAtoms, Cfgs, Junk, EmitOn
+VARIABLES wire, vis, cont, obj, verdict, cfg, prev, hist, na
 
 K_New(c)  == CASE Kind = "uint" -> UInt_New(c) [] Kind = "clen" -> UInt_New(c)
                [] Kind = "callid" -> CallID_New(c) [] Kind = "cseq" -> CSeq_New(c)
@@ -29,4 +29,8 @@ Cfgs03 == {[start |-> 0], [start |-> 3]}
 Emit == (EmitOn /\ vis > 0) =>
           PrintT(ToJson([k |-> Kind, cfg |-> cfg, wire |-> wire, cuts |-> hist,
                          offs |-> cont, err |-> verdict, obs |-> K_Obs(obj), int |-> obj]))
+SRec(cuts) == LET r == SchedRes(cuts) IN
+  ToJson([k |-> Kind, cfg |-> cfg, wire |-> wire, cuts |-> cuts, offs |-> r.offs, err |-> r.err, obs |-> K_Obs(r.st)])
+EmitTwo  == (EmitOn /\ HasTwo) => PrintT(SRec(TwoCuts))
+EmitByte == (EmitOn /\ HasByte) => PrintT(SRec(ByteCuts))
 =============================================================================
